@@ -263,6 +263,56 @@ fn record_histories<T: MomT>(out: &mut impl Write, prop: &str, n: usize, rng: &m
     }
 }
 
+fn batch_event(id: usize, fresh: bool, ord: usize, xs: &[f64]) -> Value {
+    let logged: Vec<Value> = xs.iter().map(|&x| { let (s, l, e) = dyadic(x); json!({"m": [s, l], "e": e}) }).collect();
+    json!({"op": "batch", "id": id, "fresh": fresh, "ord": ord, "xs": logged})
+}
+
+/// C19: the same data collected sequentially (object 1, a `batch` event) and from parallel iterators under
+/// real pools, splitting limits and length-changing adaptors (`par` events: the same multiset, built
+/// through rayon's fold / reduce), every result observed
+fn record_parallel<T: MomT>(out: &mut impl Write, n: usize, rng: &mut Xoshiro256PlusPlus, rep: &mut Report) {
+    let pools: Vec<rayon::ThreadPool> = [1usize, 2, 5, 16].iter().map(|&t| rayon::ThreadPoolBuilder::new().num_threads(t).build().unwrap()).collect();
+    for regime in ["uniform", "offset1e9", "exp1e-20", "near-constant", "ties", "const0.1", "sorted"] {
+        for len in [0usize, 1, 2, 3, 7, 64, n] {
+            let data = gen(regime, len, rng);
+            writeln!(out, "{}", json!({"op": "restart", "K": k_for::<T>(), "ty": T::NAME, "regime": regime, "mode": "parallel"})).unwrap();
+            let seq = T::collect_val(&data);
+            writeln!(out, "{}", batch_event(1, true, T::ORDER, &data)).unwrap();
+            writeln!(out, "{}", obs_event(1, &seq)).unwrap();
+            let mut id = 2usize;
+            for (pi, pool) in pools.iter().enumerate() {
+                let variants: Vec<(&str, Box<dyn Fn() -> T + Send + Sync>)> = vec![
+                    ("value", Box::new(|| T::par_collect_val(&data))),
+                    ("reference", Box::new(|| T::par_collect_ref(&data))),
+                    ("max_len 1", Box::new(|| T::par_collect_limits(&data, 1, 1, false))),
+                    ("max_len 3 by reference", Box::new(|| T::par_collect_limits(&data, 1, 3, true))),
+                    ("filter adaptor", Box::new(|| T::par_collect_adaptor(&data, 2, 2, false))),
+                ];
+                for (vi, (name, f)) in variants.iter().enumerate() {
+                    // every variant on the first and last pool, a rotating one on the others
+                    if pi != 0 && pi != pools.len() - 1 && (vi + pi + len) % 5 != 0 {
+                        continue;
+                    }
+                    match std::panic::catch_unwind(std::panic::AssertUnwindSafe(|| pool.install(|| f()))) {
+                        Ok(t) => {
+                            writeln!(out, "{}", json!({"op": "par", "dst": id, "src": 1, "how": name, "threads": pool.current_num_threads()})).unwrap();
+                            writeln!(out, "{}", obs_event(id, &t)).unwrap();
+                            rep.evaluations += 1;
+                        }
+                        Err(_) => {
+                            writeln!(out, "{}", json!({"op": "panic", "in": "parallel collect", "how": name})).unwrap();
+                        }
+                    }
+                    id += 1;
+                }
+            }
+            rep.behaviours += 1;
+            rep.bump("traces", 1);
+        }
+    }
+}
+
 pub fn record_moments(path: &str, prop: &str, seed: u64, n: usize, rep: &mut Report) {
     let mut rng = Xoshiro256PlusPlus::seed_from_u64(seed ^ 0x6d6f6d);
     let mut out = std::io::BufWriter::new(std::fs::File::create(path).unwrap());
@@ -280,7 +330,15 @@ pub fn record_moments(path: &str, prop: &str, seed: u64, n: usize, rep: &mut Rep
             streams!(average::Variance, average::Moments4, m6::M6);
             histories!(average::Variance, average::Moments4);
         }
-        "C02" | "C19" => histories!(average::Mean, average::Variance, average::Skewness, average::Kurtosis, average::Moments4, m5::M5, m6::M6),
+        "C19" => {
+            record_parallel::<average::Mean>(&mut out, n, &mut rng, rep);
+            record_parallel::<average::Variance>(&mut out, n, &mut rng, rep);
+            record_parallel::<average::Skewness>(&mut out, n, &mut rng, rep);
+            record_parallel::<average::Kurtosis>(&mut out, n, &mut rng, rep);
+            record_parallel::<average::Moments4>(&mut out, n, &mut rng, rep);
+            record_parallel::<m6::M6>(&mut out, n, &mut rng, rep);
+        }
+        "C02" => histories!(average::Mean, average::Variance, average::Skewness, average::Kurtosis, average::Moments4, m5::M5, m6::M6),
         "C16" => {
             streams!(average::Mean, average::Variance, average::Skewness, average::Kurtosis, average::Moments4, m6::M6);
         }
